@@ -1016,6 +1016,9 @@ func c04Replay(raw json.RawMessage) (bool, string) {
 		return false, err.Error()
 	}
 	switch c.What {
+	case "variadic":
+		b := c04Variadic(c.Target == 1, c.Fast)
+		return b != "", b
 	case "sealed":
 		for i := 0; i < 50; i++ {
 			if b := c04SealedCheck(*c.Sealed); b != "" {
